@@ -145,7 +145,7 @@ class Mon:
         self.rec.count("family_" + fam)
 
 
-def run_case(case, rec, mon=None):
+def _run_case(case, rec, mon=None):
     own = mon is None
     if own:
         monitor.detach_all()
@@ -187,6 +187,17 @@ def run_case(case, rec, mon=None):
         monitor.detach_all()
 
 
+def run_case(case, rec, mon=None):
+    """the threshold is a configuration value: a share of the cases runs with it changed after import"""
+    from ..common import support_threshold
+
+    thr = case.get("threshold")
+    if thr is not None:
+        rec.count("cases_with_threshold_" + repr(thr))
+    with support_threshold(thr):
+        _run_case(case, rec, mon)
+
+
 def plan(tier, seed):
     n = 900 if tier == "quick" else 28000
     return [{"a": a, "b": b, "seed": seed} for a, b in split(n, 16)]
@@ -202,7 +213,7 @@ def run_shard(spec, rec):
     for i in range(spec["a"], spec["b"]):
         rng = rng_for(spec["seed"], "C07", i, 0)
         cfg = filtgen.bank_cfg(rng, gammatone_scope_c07=True)
-        run_case({"idx": i, "seed": spec["seed"], "cfg": cfg}, rec, mon)
+        run_case({"idx": i, "seed": spec["seed"], "cfg": cfg, "threshold": [None, None, None, 5e-5, 2e-3][i % 5]}, rec, mon)
     rec.extra["worst_ratio_to_bound"] = {"%s %s" % k: round(v, 4) for k, v in sorted(mon.worst.items())}
     monitor.report(rec)
     monitor.detach_all()
